@@ -14,7 +14,7 @@ Environment: the sandbox is offline. In every shell call first run:
   export GOFLAGS=-mod=mod GOPROXY=off GOSUMDB=off GOTOOLCHAIN=local
 The existing test suite is run from the worktree root with:
   go test -vet=off -count=1 ./...
-(it takes well under a minute).
+(it takes about 2-3 minutes; the trie package dominates). The sandbox is SHARED: never run more than one `go test` process at a time, always pass `-p 2` and set GOMAXPROCS=4, and do not loop fuzz/randomized tests in parallel.
 
 The semantic property you must break:
 
